@@ -629,6 +629,10 @@ def r_flush(prog, R):
                 return [(False, "no")]
             if cal == "ares_servers_remove_stale":
                 return [(dirty, "maybe")]      # resolved by a branch on the result, else stays pending
+            if cal == "ares_slist_node_reinsert":
+                return [(True, stale)]         # a server moved to another position: the order of preference is part of the list
+        if el["k"] == "asg" and is_field(el["e"]["l"], "idx", "ares_server"):
+            return [(True, stale)]
         if el["k"] == "asg" and el["e"]["op"] == "=" and strip(el["e"].get("r")) is not None and strip(el["e"]["r"]).get("k") == "call" \
                 and strip(el["e"]["r"]).get("id") in create_ids:
             st = get(path(el["e"]["l"]))
@@ -656,7 +660,7 @@ def r_flush(prog, R):
                 bad = el
     r.require(nret >= 2, "ares_servers_update: value-set analysis reached %d return states" % nret)
     if bad is not None:
-        r.viol("update:mutation=>flush", u.name, u.loc(bad), "ares_servers_update can return success after adding/removing a server without flushing the cache")
+        r.viol("update:mutation=>flush", u.name, u.loc(bad), "ares_servers_update can return success after adding, removing or moving a server without flushing the cache")
     else:
         r.ok("update:mutation=>flush", u.loc(u.ln))
     rt = prog.func("ares_reinit_thread")
